@@ -170,7 +170,18 @@ def _classify_return(f: Fn, node, v: ast.AST, depth: int = 0) -> str:
         return 'unknown'
     if isinstance(v, ast.Name):
         vals = f.lf.values_reaching(node.id, v.id)
-        kinds = {(_classify_return(f, f.cfg.nodes[s], dv, depth + 1) if dv is not None else 'unknown') for (s, dv) in vals}
+        kinds = set()
+        for (s, dv) in vals:
+            if dv is not None:
+                kinds.add(_classify_return(f, f.cfg.nodes[s], dv, depth + 1))
+                continue
+            # unpacking `(a,) = arr` / `a, b = arr`
+            a = f.cfg.nodes[s].ast if s >= 0 else None
+            if isinstance(a, ast.Assign) and isinstance(a.targets[0], (ast.Tuple, ast.List)):
+                src = _classify_return(f, f.cfg.nodes[s], a.value, depth + 1)
+                kinds.add({'ndarray': 'npscalar', 'ndarray-tuple': 'ndarray'}.get(src, 'unknown'))
+            else:
+                kinds.add('unknown')
         return kinds.pop() if len(kinds) == 1 else 'unknown'
     if isinstance(v, ast.Call):
         d = dotted(v.func) or ''
